@@ -142,7 +142,7 @@ func (g *stgen) schema(depth int) *jsonschema.Schema {
 				if n == 0 && !emptyOK {
 					n = 1
 				}
-				sl := make([]*jsonschema.Schema, n)
+				sl := make([]*jsonschema.Schema, n, n+[]int{0, 0, 1, 4}[r.IntN(4)]) // sometimes with spare capacity
 				for j := range sl {
 					sl[j] = g.child(depth + 1)
 				}
